@@ -165,6 +165,9 @@ def onStreamFrame (s : St) (isClient : Bool) (f : SFrame) (fields : Option (List
   let d := if isClient then s.c else s.s
   let put (d' : DirSt) : St := if isClient then { s with c := d' } else { s with s := d' }
   if f.len > d.limit then (s, "reject frame-too-large")
+  -- the server never sends a header fragment above the spec minimum (`splitHeaderBlock`)
+  else if !isClient && f.dataBytes.isEmpty && f.frag.length > serverHdrFragmentMax then
+    (s, "reject server-header-fragment-too-large")
   else
     -- header blocks are contiguous on a connection
     let orderOK := match d.inBlock with
